@@ -7,5 +7,9 @@ cd "$(dirname "${BASH_SOURCE[0]}")"
 if ! /venv/bin/python -c "import hypothesis" 2>/dev/null; then
   /venv/bin/pip install --no-index --find-links /opt/veriftools/wheels hypothesis
 fi
+# atheris (C14 fuzz engine) for /venv's Python 3.12 goes into /verif/.deps (ignored by git)
+if ! PYTHONPATH=.deps /venv/bin/python -c "import atheris" 2>/dev/null; then
+  /venv/bin/pip install -q --no-index --find-links /opt/veriftools/wheels --target .deps atheris || echo "atheris not installable: C14 engine 3 will be skipped"
+fi
 /venv/bin/python -c "import hypothesis, numpy, jaxtyping, sys; print('hypothesis', hypothesis.__version__, 'jaxtyping from', jaxtyping.__file__)"
 mkdir -p evidence replays .work
